@@ -189,7 +189,9 @@ func c15(tier string, args []string) int {
 			for _, in := range inputs {
 				lab.Node.Mem.Restore(snap)
 				lab.Board.SetLog(nil)
-				trace := func() interface{} { return map[string]interface{}{"base_offset": baseK, "history": append(s.Trace(), in.Label)} }
+				trace := func() interface{} {
+					return map[string]interface{}{"base_offset": baseK, "history": append(s.Trace(), in.Label)}
+				}
 				var err error
 				switch in.Kind {
 				case "submit":
